@@ -247,7 +247,7 @@ Proof.
   destruct (Hok {| x_w := activate now i w; x_log := [] |}) as [[_ Ff _ _ _ _] _]. fold s in Ff. cbn [x_w] in Ff. rewrite activate_fes in Ff.
   unfold buf_process, shutdown_part, restart_of. cbn [w_mod set_buf set_fes].
   rewrite !fes_flush_app, deactivate_buf, deactivate_fes, Ff.
-  destruct (shut (w_mod (deactivate i (x_w s)) i)) as [[t|]|]; reflexivity.
+  destruct (shut (w_mod (deactivate i (x_w s)) i)) as [[t|]|]; cbn [fst]; rewrite ?ifse_fes; reflexivity.
 Qed.
 
 Lemma deactivate_self m w : exists n, w_mod (deactivate m w) m = set_nw (w_mod w m) n.
@@ -269,7 +269,7 @@ Proof.
   intros s. unfold around. fold s. destruct (deactivate_self i (x_w s)) as (n & Hd).
   unfold buf_process, shutdown_part. cbn [w_mod set_buf set_fes]. rewrite Hd. cbn [shut set_nw].
   destruct (shut (w_mod (x_w s) i)) as [r|] eqn:Es; cbn [fst].
-  - split; [right|split; [|reflexivity]]; destruct r; cbn [w_mod set_fes set_fin set_mod]; rewrite N.eqb_refl; reflexivity.
+  - rewrite ifse_mod. split; [right|split; [|reflexivity]]; destruct r; cbn [w_mod set_fes set_fin set_mod]; rewrite N.eqb_refl; reflexivity.
   - split; [left|split; [|reflexivity]]; cbn [w_mod set_buf set_fes]; rewrite Hd; cbn [timers shut set_nw]; [reflexivity|exact Es].
 Qed.
 
